@@ -162,6 +162,7 @@ def juraAd : Adapter (PJ.Jura Float) (JQ Float) (PJ.Order Float) (Nat × Nat) (J
   ops := juraOps
   parseIns := fun t => match t with
     | [asset, isBuy, lpx, sz, kind] => some ⟨asset.toNat!, isBuy == "1", f64 lpx, f64 sz, false, none, Drv.Jura.parseTyp kind⟩
+    | [asset, isBuy, lpx, sz, kind, x] => some ⟨asset.toNat!, isBuy == "1", f64 lpx, f64 sz, (Drv.Jura.extras x).1, (Drv.Jura.extras x).2, Drv.Jura.parseTyp kind⟩
     | _ => none
   parseDel := fun t => match t with | [asset, id] => some (asset.toNat!, id.toNat!) | _ => none
   bufOf := fun e => e.buffer
